@@ -180,7 +180,7 @@ HTML_CALLBACK = {
                  'elem_type == 1 or elem_type == 2 or elem_type == 3',
                  'len(name) >= 1',
                  'start + (2 if elem_type == 2 else 1) + len(name) < end',
-                 'forall(0, len(name), lambda i: source[start + (2 if elem_type == 2 else 1) + i] == name[i])',
+                 'occurs_at(source, start + (2 if elem_type == 2 else 1), name)',
                  # a closing tag starts with `</`, a self-closing one ends with `/>`
                  "implies(elem_type == 2, source[start + 1] == '/')",
                  "implies(elem_type == 3, source[end - 2] == '/')",
@@ -250,25 +250,28 @@ HCB_REQ_FULL = list(HTML_CALLBACK['requires'])
 # the text of an opening / self-closing tag `<name ...>` resp. of a closing tag `</name>` of `source`
 define('open_shape', ['s', 'e', 'nm', 'source'],
        "source[s] == '<' and source[e - 1] == '>' and len(nm) >= 1 and s + 1 + len(nm) < e and "
-       'forall(0, len(nm), lambda k: source[s + 1 + k] == nm[k])')
+       'occurs_at(source, s + 1, nm)')
 define('close_shape', ['s', 'e', 'nm', 'source'],
        "source[s] == '<' and source[s + 1] == '/' and source[e - 1] == '>' and s + 2 + len(nm) < e and "
-       'forall(0, len(nm), lambda k: source[s + 2 + k] == nm[k])')
+       'occurs_at(source, s + 2, nm)')
 
 # C09 "ranges slice exactly to the element's tags", for a MatchedTag r (or None).  The quantifiers are outermost
 # (an empty range stands for "no result" / "no closing tag"): a universal under a disjunction is poorly triggered
 MATCH_SHAPE = [
     "%(r)s is None or (source[%(r)s.open[0]] == '<' and source[%(r)s.open[1] - 1] == '>' and len(%(r)s.name) >= 1 "
     " and %(r)s.open[0] + 1 + len(%(r)s.name) < %(r)s.open[1])",
-    'forall(0, (0 if %(r)s is None else len(%(r)s.name)), lambda k: source[%(r)s.open[0] + 1 + k] == %(r)s.name[k])',
+    '%(r)s is None or occurs_at(source, %(r)s.open[0] + 1, %(r)s.name)',
     "%(r)s is None or %(r)s.close is None or (source[%(r)s.close[0]] == '<' and source[%(r)s.close[0] + 1] == '/' "
     " and source[%(r)s.close[1] - 1] == '>' and %(r)s.close[0] + 2 + len(%(r)s.name) < %(r)s.close[1])",
-    'forall(0, (0 if (%(r)s is None or %(r)s.close is None) else len(%(r)s.name)), '
-    ' lambda k: source[%(r)s.close[0] + 2 + k] == %(r)s.name[k])']
+    '%(r)s is None or %(r)s.close is None or occurs_at(source, %(r)s.close[0] + 2, %(r)s.name)']
 
 HM_CAP = {'pool': 'list[Tag]', 'stack': 'list[Tag]', 'result': 'list[MatchedTag|None]', 'options': 'ScannerOptions',
           'pos': 'int', 'source': 'str', 'g_last_end': 'int'}
 HM_INV = ['len(result) == 1', 'pool is not stack',
+          # pooling discipline: a recycled Tag is not one that is still waiting on the stack
+          'forall(0, len(pool), lambda i: forall(0, i, lambda j: pool[i] is not pool[j]))',
+          'forall(0, len(stack), lambda i: forall(0, len(pool), lambda j: stack[i] is not pool[j]))',
+          'forall(0, len(stack), lambda i: forall(0, i, lambda j: stack[i] is not stack[j]))',
           'owned(pool) and owned(stack) and owned(result)',
           'forall(0, len(stack), lambda i: owned(stack[i]))', 'forall(0, len(pool), lambda i: owned(pool[i]))',
           'result[0] is None or owned(result[0])',
@@ -277,8 +280,9 @@ HM_INV = ['len(result) == 1', 'pool is not stack',
           'result[0] is None or (open_close_ok(result[0].open, result[0].close, len(source)) and '
           ' result[0].open[0] < pos and pos < (result[0].open[1] if result[0].close is None else result[0].close[1]))',
           # every open tag waiting on the stack is the text `<name ...>` of the source
-          'forall(0, len(stack), lambda i: len(stack[i].name) >= 1 and '
-          ' open_shape(stack[i].start, stack[i].end, stack[i].name, source))',
+          "forall(0, len(stack), lambda i: len(stack[i].name) >= 1 and source[stack[i].start] == '<' and "
+          " source[stack[i].end - 1] == '>' and stack[i].start + 1 + len(stack[i].name) < stack[i].end)",
+          'forall(0, len(stack), lambda i: occurs_at(source, stack[i].start + 1, stack[i].name))',
           # C09: the ranges slice exactly to the element's tags, and the attribute ranges lie in the open tag
           ] + [c % {'r': 'result[0]'} for c in MATCH_SHAPE] + [
           'result[0] is None or (owned(result[0].attributes) and forall(0, len(result[0].attributes), lambda i: '
